@@ -630,12 +630,85 @@ class Field3D:
             return Field3D([r for x in args[0] for r in x.rows])
         if path == 'numpy.isnan' and args[0] is self:
             return NanMask()
-        return NotImplemented
+        if path == 'numpy.extract' and len(args) == 2 and isinstance(args[0], NanMask) and args[1] is self:
+            return Field3D(self.rows, flat=True)          # np.extract(~isnan(y), y) = y[~isnan(y)]
+        if path == 'numpy.shape' and args[0] is self:
+            return self.abs_getattr(interp, 'shape', node)
+        if path == 'numpy.size' and args == [self] or path == 'numpy.size' and tuple(args) == (self,):
+            return self.abs_getattr(interp, 'size', node)
+        if path == 'numpy.ndim' and args[0] is self:
+            return 1 if self.flat else 3
+        if not path.startswith('numpy.'):
+            return NotImplemented
+        from ..repo import AnalysisError
+        raise AnalysisError(f'3-D field stand-in: library call {path} not modelled', node)
 
 
 class NanMask:
     def abs_unaryop(self, interp, op, node):
         return self
+
+    def abs_ext_call(self, interp, path, args, kw, node):
+        if path == 'numpy.logical_not' and len(args) == 1:
+            return self
+        if path == 'numpy.extract' and len(args) == 2 and isinstance(args[1], Field3D):
+            return NotImplemented
+        from ..repo import AnalysisError
+        raise AnalysisError(f'NaN-mask stand-in: library call {path} not modelled', node)
+
+
+class DoyArray:
+    """Stand-in for the DataArray `time.dt.dayofyear`: the day numbers, with the accessors an xarray DataArray has"""
+    def __init__(self, doys):
+        self.doys = list(doys)
+
+    def vec(self):
+        return Vec.fresh([El(X.num(d), False) for d in self.doys], kind='nd', dtype='i8')
+
+    def abs_contains(self, item):
+        from ..repo import AnalysisError
+        if isinstance(item, bool) or not isinstance(item, (int, Fr)):
+            raise AnalysisError('day-of-year stand-in: membership of a non-integer not modelled')
+        return any(d == item for d in self.doys)
+
+    def abs_iter(self):
+        return list(self.doys)
+
+    def abs_len(self):
+        return len(self.doys)
+
+    def abs_getattr(self, interp, name, node):
+        from ..models import PyCallable
+        from ..repo import AnalysisError
+        if name in ('values', 'data'):
+            return self.vec()
+        if name == 'to_numpy':
+            return PyCallable(lambda it, a, k, n: self.vec(), 'to_numpy')
+        if name == 'size':
+            return len(self.doys)
+        if name == 'shape':
+            return (len(self.doys),)
+        if name == 'ndim':
+            return 1
+        raise AnalysisError(f'day-of-year stand-in: attribute {name!r} not modelled', node)
+
+    def abs_binop(self, interp, op, a, b, node):
+        from ..repo import AnalysisError
+        raise AnalysisError(f'day-of-year stand-in: operator {op} on the DataArray not modelled', node)
+
+    def abs_ext_call(self, interp, path, args, kw, node):
+        # numpy functions convert the DataArray to its values (np.asarray): answer with the plain array in its place
+        from ..interp import ExtRef
+        def sub(v):
+            if v is self:
+                return self.vec()
+            if isinstance(v, (list, tuple)):
+                return type(v)(sub(x) for x in v)
+            return v
+        if not path.startswith('numpy.'):
+            from ..repo import AnalysisError
+            raise AnalysisError(f'day-of-year stand-in: library call {path} not modelled', node)
+        return interp.models.call(interp, ExtRef(path), [sub(a) for a in args], {k: sub(v) for k, v in kw.items()}, node)
 
 
 class DayStamp:
@@ -700,7 +773,7 @@ class ClimTime:
         if name == 'dt' and not self.is_dt:
             return ClimTime(self.doys, True)
         if name in ('dayofyear', 'day_of_year') and self.is_dt:
-            return Vec.fresh([El(X.num(d), False) for d in self.doys], kind='nd', dtype='i8')
+            return DoyArray(self.doys)
         raise AnalysisError(f'time coordinate stand-in: attribute {name!r} not modelled', node)
 
 
@@ -742,7 +815,13 @@ def knot_rules(ck):
                 seen['bc'] = kw.get('bc_type')
 
                 def evaluate(it2, a, k, n):
-                    seen['days'] = [int(v) for v in it2.iterate(a[0], n)]
+                    def as_int(v):
+                        if isinstance(v, Sc):
+                            if not v.concrete():
+                                raise AnalysisError('spline evaluated on a day that is not concrete', n)
+                            v = v.value()
+                        return int(v)
+                    seen['days'] = [as_int(v) for v in it2.iterate(a[0], n)]
                     raise _Probe()
                 return PyCallable(evaluate, 'spline')
             saved = it.models.ext_call.get('scipy.interpolate.CubicSpline')
